@@ -23,6 +23,8 @@ ARRAYS = [
     ('literal_calls', "int[] A = [f(x), g(x), f(g(x))]; use(A);"),
     ('alias', "int[] B0 = [x, 9]; int[] A = B0; use(A);"),
     ('two', "int[] A = [x]; byte Z[x % 2 + 1]; Z[0] = 'z'; use(A);"),
+    ('empty_literal', "int[] A = []; sink += A.length;"),
+    ('empty_then_real', "byte[] A = []; int[] B1 = [x, x]; sink += A.length + B1[1];"),
 ]
 
 # EXIT statement executed when (i % 3 == 1); 'where' says which contexts it is legal in
@@ -54,6 +56,10 @@ SHAPES = [
     ('inner_loop', "ARR for (int j = 0; j < 2; j += 1) { ARR2 if (i % 3 == 1 and j == 1) { EXIT } } write('.');"),
     # an earlier exit of the same loop taken BEFORE the iteration owns anything, then the array, then the exit under test
     ('guard_continue_before_array', "if (i % 4 == 2) { write('g'); continue; } ARR if (i % 3 == 1) { EXIT } write('.');"),
+    # the exit construct is the LAST statement of the block that owns the array (nothing follows it inside that block)
+    ('loop_last_in_block', "{ ARR for (int j = 0; j < 3; j += 1) { ARR2 if (i % 3 == 1 and j == 1) { EXIT } } } write('.');"),
+    ('if_else_last_in_block', "{ ARR if (i % 3 == 1) { EXIT } else { sink += 2; } } write('.');"),
+    ('array_in_for_init_scope', "for (int j = x - x; j < 2; j += 1) { ARR if (i % 3 == 1 and j == 1) { EXIT } }"),
     ('guard_break_before_array', "if (i == 5) { write('G'); break; } ARR if (i % 3 == 1) { EXIT } write('.');"),
 ]
 
